@@ -30,3 +30,4 @@ func verifKnown(id string, c bool) bool            { panic("verif intrinsic") }
 func verifThorough() bool                          { panic("verif intrinsic") }
 func verifConfig(key string, val int)              { panic("verif intrinsic") }
 func verifIdealHash()                              { panic("verif intrinsic") }
+func verifNote(label string, v any)                { panic("verif intrinsic") }
